@@ -98,6 +98,14 @@ impl<K: Clone + Eq + Hash, V> LruTimeCache<K, V> {
     }
 }
 
+#[cfg(feature = "verif-hooks")]
+impl<K: Clone + Eq + Hash, V> LruTimeCache<K, V> {
+    /// Entries from least to most recently used, with the instant of their last use.
+    pub fn verif_iter(&self) -> impl Iterator<Item = (&K, &V, Instant)> {
+        self.map.iter().map(|(k, (v, t))| (k, v, *t))
+    }
+}
+
 #[cfg(test)]
 mod tests {
     use crate::lru_time_cache::LruTimeCache;
